@@ -96,19 +96,25 @@ func VerifH_kms_parse_limit() {
 func VerifH_kms_envelope() {
 	verifrt.NativeSkip("the registry is summarised")
 	summariseRegistry()
-	pad := verifrt.Choice("pad", 3)
+	// encrypted DEK lengths 5, 6, 7 and around the documented maximum: 4095, 4096, 4097
+	pad := [...]int{0, 1, 2, 4090, 4091, 4092}[verifrt.Choice("pad", 6)]
 	kek := stubKEK{pad: pad}
 	a := NewKMSEnvelopeAEAD2(&tinkpb.KeyTemplate{TypeUrl: aesGCMTypeURL}, kek)
 	pt := verifrt.Bytes("pt", verifrt.Choice("n", 3))
 	ad := verifrt.Bytes("ad", verifrt.Choice("m", 2))
 	d0 := verifrt.Draws()
 	ct, err := a.Encrypt(pt, ad)
-	verifrt.Assert(err == nil, "Encrypt succeeds")
+	if pad+5 > 4096 {
+		verifrt.Assert(err != nil, "an encrypted DEK longer than 4096 bytes is refused")
+		verifrt.Reach("toolong")
+		return
+	}
+	verifrt.Assert(err == nil, "Encrypt succeeds (encrypted DEK of up to 4096 bytes)")
 	verifrt.Assert(verifrt.Draws() == d0+1, "a fresh DEK per message")
 	dek := verifrt.DrawBytes(d0)
 	edek, _ := kek.Encrypt(dek, []byte{})
 	inner, _ := (&stubDEK{key: dek}).Encrypt(pt, ad)
-	want := []byte{0, 0, 0, byte(len(edek))}
+	want := []byte{0, 0, byte(len(edek) >> 8), byte(len(edek))}
 	want = append(append(want, edek...), inner...)
 	verifrt.AssertEq(ct, want, "envelope == be32(|encDEK|) || encDEK || DEK-AEAD(pt, ad)")
 	// decrypt: the payload and DEK handed to the DEK AEAD are exactly those of the envelope
